@@ -228,6 +228,7 @@ pub struct ChildRun {
     pub trace: Vec<TraceOp>,
     pub commits: CommitList,
     pub failed_writes: Vec<(Vec<u8>, Option<(u32, u32)>)>,
+    pub failed_commits: Vec<(usize, String, Vec<(Vec<u8>, Option<(u32, u32)>)>)>,
     pub child_failure: Option<(String, String)>,
     pub status: String,
 }
@@ -254,9 +255,13 @@ pub fn run_child(case: &Case, root: &Path, scratch: &Path, faults: Option<&str>,
     }
     let out = crate::util::spawn_child(cmd.stdin(Stdio::null()).stdout(Stdio::piped()).stderr(Stdio::piped())).and_then(|c| c.wait_with_output());
     let root_s = root.to_string_lossy().to_string();
+    if let Ok(dst) = std::env::var("VERIF_DUMP_TRACE") {
+        static N: std::sync::atomic::AtomicU32 = std::sync::atomic::AtomicU32::new(0);
+        let _ = std::fs::copy(&log, format!("{dst}.{}", N.fetch_add(1, std::sync::atomic::Ordering::SeqCst)));
+    }
     let trace = std::fs::read(&log).map(|d| parse_trace(&d, &root_s)).unwrap_or_default();
     match out {
-        Err(e) => ChildRun { trace, commits: vec![], failed_writes: vec![], child_failure: None, status: format!("spawn failed: {e}") },
+        Err(e) => ChildRun { trace, commits: vec![], failed_writes: vec![], failed_commits: vec![], child_failure: None, status: format!("spawn failed: {e}") },
         Ok(o) => {
             let text = String::from_utf8_lossy(&o.stdout).to_string();
             let line = text.lines().last().unwrap_or("");
@@ -265,7 +270,8 @@ pub fn run_child(case: &Case, root: &Path, scratch: &Path, faults: Option<&str>,
                     let commits: CommitList = serde_json::from_value(v.get("commits").cloned().unwrap_or(json!([]))).unwrap_or_default();
                     let failed_writes = serde_json::from_value(v.get("failed_writes").cloned().unwrap_or(json!([]))).unwrap_or_default();
                     let child_failure = v.get("failure").and_then(|f| if f.is_null() { None } else { Some((f["class"].as_str().unwrap_or("").to_string(), f["msg"].as_str().unwrap_or("").to_string())) });
-                    ChildRun { trace, commits, failed_writes, child_failure, status: "ok".into() }
+                    let failed_commits = serde_json::from_value(v.get("failed_commits").cloned().unwrap_or(json!([]))).unwrap_or_default();
+                    ChildRun { trace, commits, failed_writes, failed_commits, child_failure, status: "ok".into() }
                 }
                 _ => {
                     let err = String::from_utf8_lossy(&o.stderr);
@@ -274,7 +280,7 @@ pub fn run_child(case: &Case, root: &Path, scratch: &Path, faults: Option<&str>,
                         Some(i) => lines[i..(i + 2).min(lines.len())].join(" | "),
                         None => lines.iter().rev().take(2).cloned().collect::<Vec<_>>().join(" | "),
                     };
-                    ChildRun { trace, commits: vec![], failed_writes: vec![], child_failure: None, status: format!("child died ({:?}): {}", o.status, msg.chars().take(300).collect::<String>()) }
+                    ChildRun { trace, commits: vec![], failed_writes: vec![], failed_commits: vec![], child_failure: None, status: format!("child died ({:?}): {}", o.status, msg.chars().take(300).collect::<String>()) }
                 }
             }
         }
@@ -436,7 +442,7 @@ fn interesting(t: &TraceOp) -> bool {
     matches!(t.op, OP_MARK | OP_RENAME | OP_UNLINK | OP_FSYNC | OP_OPEN | OP_FSYNCDIR | OP_RMDIR | OP_FTRUNCATE)
 }
 
-fn select_points(trace: &[TraceOp], stride: usize, salt: u32) -> Vec<usize> {
+pub fn select_points(trace: &[TraceOp], stride: usize, salt: u32) -> Vec<usize> {
     let n = trace.len();
     if stride == 0 || n <= 300 {
         return (0..=n).collect();
